@@ -400,7 +400,7 @@ func visitInstr(fr *frame, instr ssa.Instruction) continuation {
 			if m == nil {
 				tpanic("assignment to entry in nil map")
 			}
-			mapSet(m, key, v)
+			mapSetAny(m, key, v)
 		case *hashmap:
 			if m == nil {
 				tpanic("assignment to entry in nil map")
